@@ -35,7 +35,9 @@ REQUIRED_BUCKETS = ["arrival-while-in-flight", "coalesced(overwritten-pending)",
 REQUIRED_COUNTERS = ["requests_sent", "distributions_entered", "schedules_run"]
 ASSUMPTIONS = ["probe ComponentManager; virtual time"]
 
-GROUPS = [[1, 2], [3], [4, 5]]
+# ids of one group collide in a small hash table (1 and 9, 4 and 12): two equal sets built in a different insertion
+# order then iterate in a different order - a group must be identified by its members, not by how a set lists them
+GROUPS = [[1, 9], [3], [4, 12]]
 
 
 def budget(tier: str) -> dict[str, Any]:
@@ -119,7 +121,8 @@ async def _drive(case: dict[str, Any], log: list[Any]) -> None:
                 await asyncio.sleep(dt)
             grp = tuple(GROUPS[g])
             log.append(("sent", grp, float(i + 1), loop.time()))
-            req = Request(power=Power.from_watts(1000.0 + shared[0] if shared else float(i + 1)), component_ids=set(grp))
+            members = list(grp) if i % 3 != 1 else list(reversed(grp))
+            req = Request(power=Power.from_watts(1000.0 + shared[0] if shared else float(i + 1)), component_ids=set(members))
             ident[id(req)] = float(i + 1)
             objs[float(i + 1)] = req  # (kept alive: object identity is the request id)
             await tx.send(req)
